@@ -26,6 +26,19 @@ def main(argv):
         print("re-run the check to reproduce:  ./check", prop, d.get("tier", "quick"), " (VERIF_SEED=%s)" % d.get("seed"))
         return 0
     tier = argv[1] if argv[1] in ("quick", "thorough") else os.environ.get("VERIF_TIER", "quick")
+    # a check that does not finish is a machinery failure, not a silent hang: hard budget for the whole check
+    import signal
+    import threading
+
+    budget = int(os.environ.get("VERIF_BUDGET_S", 2700 if tier == "quick" else 4 * 3600))
+
+    def _expired():
+        print(f"MACHINERY-ERROR property={prop}: the check did not finish within its budget of {budget} s", flush=True)
+        os.killpg(os.getpgid(0), signal.SIGKILL) if os.environ.get("VERIF_KILL_GROUP") else os._exit(2)
+
+    _t = threading.Timer(budget, _expired)
+    _t.daemon = True
+    _t.start()
     try:
         # the import order the test-suite uses (conftest imports quansino.mc first);
         # other first-import orders are the subject of C08 and run in subprocesses
